@@ -189,6 +189,11 @@ func (f *c16Fix) forgeries(valid *c16Token, revoked *c16Token) []c16Forgery {
 		return signWith(priv, jwt.SigningMethodES256, nil, m)
 	}
 	out = append(out, c16Forgery{"expired one hour ago (signed with the server key)", tc(func(m jwt.MapClaims) { m["exp"] = now.Add(-time.Hour).Unix() })})
+	// "unexpired" has no grace period: a token is refused from the second after its expiry on
+	for _, ago := range []time.Duration{2 * time.Second, 20 * time.Second, 90 * time.Second, 10 * time.Minute} {
+		ago := ago
+		out = append(out, c16Forgery{fmt.Sprintf("expired %v ago (signed with the server key)", ago), tc(func(m jwt.MapClaims) { m["exp"] = now.Add(-ago).Unix() })})
+	}
 	out = append(out, c16Forgery{"expired long ago, admin (signed with the server key)", tc(func(m jwt.MapClaims) {
 		m["exp"] = now.Add(-100 * 24 * time.Hour).Unix()
 		m["iat"] = now.Add(-190 * 24 * time.Hour).Unix()
